@@ -39,19 +39,33 @@
 //     packet so subsequent pkt-line reads stay in sync" — the position is
 //     checked and the next packet must come back intact.
 //
-//   - truncation (the stream ends early): packets wholly before the cut are
-//     read intact; the call that hits the cut must fail. io.EOF (Scanner: a
-//     nil Err()) is the documented *clean* end-of-stream signal and is only
-//     accepted when the cut falls on a packet boundary; inside a packet it
-//     would make a truncated stream indistinguishable from a complete one.
-//     A truncated packet must never be returned as a (shorter) success.
+//   - truncation (the stream ends early). The statement quantifies over split
+//     points and read sizes of streams written by go-git; it does not say HOW
+//     a truncated stream must be reported. So under truncation only what is
+//     within the statement is judged: everything returned successfully must be
+//     exactly a prefix of the written sequence (packets wholly before the cut
+//     are read intact, the truncated packet is never returned as a shorter
+//     "success", no wrong bytes, no extra packet; demultiplexed pack/progress
+//     bytes are a prefix of the originals and contain every complete frame),
+//     and a too-short header, when it is reported as an error at all, must be
+//     of the ErrInvalidPktLen class (Read's doc: "short pkt-line"). Whether
+//     the cut is reported as an error or as a clean end of stream (io.EOF;
+//     Scanner false with nil Err(); Demuxer io.EOF) is NOT judged: it is
+//     counted as probe "truncation-reported-as-clean-eof:<api>:<where>".
+//     Observation behind those probes (counted, not judged), two root causes:
+//     (1) pktline.go:165 — Read returns io.ReadFull's error unchanged, and
+//     io.ReadFull yields plain io.EOF when the stream ends exactly after a
+//     length header that announces a payload; Read/ReadLine then return
+//     io.EOF, Scanner.Scan ends with Err()==nil, Demuxer.Read returns io.EOF,
+//     so io.ReadAll(Demuxer) on such a stream succeeds with short pack data;
+//     (2) PeekLine (pktline.go:215 and :234) passes bufio.Reader.Peek's io.EOF
+//     through for a cut anywhere inside a packet (header or payload).
 //
 //   - sideband: pack bytes and progress bytes delivered so far are, after
 //     every Demuxer.Read, a prefix of what was written, and equal to it at
 //     the end; io.EOF ends the stream at the flush (or at a frame boundary);
 //     a channel-3 frame surfaces as an error carrying its text, after all
-//     earlier pack/progress bytes were delivered; a cut inside a frame must
-//     produce a non-EOF error.
+//     earlier pack/progress bytes were delivered.
 package c34
 
 import (
@@ -902,13 +916,22 @@ func (r *run) execPkt() {
 				}
 				out.Probe("eof-at-boundary")
 			case state == "end":
+				// the transport itself failed (io.ErrUnexpectedEOF) on a packet boundary:
+				// how that is reported is outside the statement; counted only
 				if errors.Is(err, io.EOF) {
-					fail(name, "transport-error-became-eof", "the stream ended with io.ErrUnexpectedEOF at %d, the API reported clean EOF", r.trunc)
+					out.Probe("truncation-reported-as-clean-eof:" + name + ":transport-error-at-boundary")
 				}
 			default: // partial
-				if errors.Is(err, io.EOF) {
-					fail(name, "eof-inside-packet", "stream cut at byte %d inside packet %d [%d,%d) (header ends %d): the API reported clean end of stream (%s) instead of an error",
-						r.trunc, i, s.start, s.end, s.hend, eofHow(api))
+				where := strings.TrimPrefix(class, "truncated-")
+				switch {
+				case errors.Is(err, io.EOF):
+					// clean end of stream for a cut inside a packet: not judged, see the file header
+					out.Probe("truncation-reported-as-clean-eof:" + name + ":" + where)
+				case r.trunc < s.hend && api != "peek" && !errors.Is(err, pktline.ErrInvalidPktLen):
+					// Read documents the too-short header as an ErrInvalidPktLen-class error
+					fail(name, "wrong-error-class", "stream cut at byte %d inside the header of packet %d [%d,%d): err=%v, want ErrInvalidPktLen", r.trunc, i, s.start, s.end, err)
+				default:
+					out.Probe("truncation-reported-as-error")
 				}
 			}
 			if p.TruncOn && r.trunc < r.full {
@@ -1098,13 +1121,6 @@ func (r *run) execPkt() {
 		}
 		out.Probe("packet-roundtrip")
 	}
-}
-
-func eofHow(api string) string {
-	if api == "scanner" {
-		return "Scan()==false, Err()==nil"
-	}
-	return "io.EOF"
 }
 
 func segStart(segs []seg, i, full int) int {
@@ -1317,12 +1333,17 @@ func (r *run) execSideband() {
 			}
 			out.Probe("eof-at-boundary")
 		} else if errors.Is(final, io.EOF) {
-			fail("transport-error-became-eof", "the stream ended with io.ErrUnexpectedEOF, Demuxer reported io.EOF")
+			out.Probe("truncation-reported-as-clean-eof:demux:transport-error-at-boundary")
 		}
 	case "partial":
-		if errors.Is(final, io.EOF) {
-			fail("eof-inside-frame", "stream cut at byte %d inside frame [%d,%d) (header ends %d): Demuxer.Read reported io.EOF, the same as a complete stream, after %d of %d pack bytes",
-				r.trunc, termSeg.start, termSeg.end, termSeg.hend, got, len(pack))
+		// how the cut is reported is not judged (file header); what was delivered was judged above
+		switch {
+		case errors.Is(final, io.EOF):
+			out.Probe("truncation-reported-as-clean-eof:demux:" + strings.TrimPrefix(class, "truncated-"))
+		case r.trunc < termSeg.hend && !errors.Is(final, pktline.ErrInvalidPktLen):
+			fail("wrong-error-class", "stream cut at byte %d inside the header of frame [%d,%d): err=%v, want ErrInvalidPktLen", r.trunc, termSeg.start, termSeg.end, final)
+		default:
+			out.Probe("truncation-reported-as-error")
 		}
 	case "bad":
 		if !errors.Is(final, pktline.ErrInvalidPktLen) {
@@ -1637,7 +1658,8 @@ func TestCheck(t *testing.T) {
 			"non-trivial = at least one delivery of the stream ended strictly inside a packet (short read in header or payload); distinct = distinct expanded plans",
 		Assumptions: []string{
 			"the transport is an in-order lossless byte stream: it may split bytes anywhere and end early, it never reorders, duplicates or corrupts",
-			"a stream that ends exactly on a packet boundary is a legal end of stream for the pkt-line layer (io.EOF accepted there, also for the Demuxer without a flush)",
+			"a stream that ends exactly on a packet boundary is a legal end of stream for the pkt-line layer (io.EOF required there, also for the Demuxer without a flush)",
+			"the statement does not say how a truncated stream is reported: a clean io.EOF / Scanner end / Demuxer io.EOF for a cut inside a packet is counted (probe truncation-reported-as-clean-eof:<api>:<where>), not judged; what is returned successfully must still be an exact prefix of what was written",
 			"after a malformed length only bare 4-byte malformed headers are followed by further packets (no resynchronisation over an unknown payload is demanded)",
 		},
 		Real: []string{"pktline.Write/WriteString/Writef/Writeln/WriteError/WriteFlush/WriteDelim/WriteResponseEnd, ErrorLine.Encode", "pktline.Read/ReadLine/PeekLine/ParseLength", "pktline.Scanner",
